@@ -54,6 +54,10 @@ struct Scenario {
     /// messages every sender task sends after the wire has fully healed (shows that the
     /// association still works after the last fault, e.g. a late duplicate INIT)
     tail: u32,
+    /// number of times the creator calls the public `send_dcep_open` again on each in-band
+    /// channel after it opened (PeerConnection::create_data_channel can race the association's
+    /// own OPEN the same way): the peer answers every OPEN with an ACK
+    dup_open: u32,
     label: String,
 }
 
@@ -84,7 +88,7 @@ impl Scenario {
             "rto_ms": [self.rto_ms.0, self.rto_ms.1, self.rto_ms.2], "hb_ms": self.hb_ms, "rwnd": self.rwnd,
             "max_burst": self.max_burst, "max_cwnd": self.max_cwnd, "max_buffered": self.max_buffered,
             "force_tsn_a": self.force_tsn_a, "force_tsn_b": self.force_tsn_b, "a_is_client": self.a_is_client,
-            "idle_ms": self.idle_ms, "tail": self.tail,
+            "idle_ms": self.idle_ms, "tail": self.tail, "dup_open": self.dup_open,
         })
     }
     fn from_json(v: &Value) -> Scenario {
@@ -124,6 +128,7 @@ impl Scenario {
             a_is_client: v["a_is_client"].as_bool().unwrap_or(true),
             idle_ms: v["idle_ms"].as_u64().unwrap_or(0),
             tail: v["tail"].as_u64().unwrap_or(0) as u32,
+            dup_open: v["dup_open"].as_u64().unwrap_or(0) as u32,
         }
     }
     fn rtc_config(&self) -> RtcConfiguration {
@@ -159,6 +164,7 @@ fn default_scn(kind: &str, label: &str) -> Scenario {
         a_is_client: true,
         idle_ms: 0,
         tail: 3,
+        dup_open: 0,
         label: label.into(),
     }
 }
@@ -183,6 +189,8 @@ const HDR: usize = 16;
 fn msg_size(mode: &str, r: &mut Rng) -> usize {
     match mode {
         "tiny" => r.below(41) as usize,
+        "id" => 16 + r.below(33) as usize,
+        "one" => 700 + r.below(450) as usize, // always exactly one DATA chunk, never bundled with another
         "small" => 1 + r.below(1000) as usize,
         "frag" => *r.pick(&[1171usize, 1172, 1173, 1199, 1200, 1201, 2399, 2400, 2401, 3600, 4096]),
         "big" => *r.pick(&[4096usize, 9000, 16384, 40000, 65535, 65536]),
@@ -297,6 +305,8 @@ struct Shared {
     chans: Mutex<Vec<ChanObs>>,
     senders_done: AtomicU64,
     main_done: AtomicU64,
+    /// woken whenever a reader recorded an event (senders react to Open without polling delay)
+    ev_notify: tokio::sync::Notify,
 }
 
 fn spawn_reader(sh: Arc<Shared>, idx: usize, dc: Arc<DataChannel>) -> tokio::task::JoinHandle<()> {
@@ -305,6 +315,9 @@ fn spawn_reader(sh: Arc<Shared>, idx: usize, dc: Arc<DataChannel>) -> tokio::tas
             let ev = dc.recv().await;
             let stamp = sh.clock.fetch_add(1, Ordering::SeqCst);
             let mut g = sh.chans.lock();
+            if matches!(ev, Some(DataChannelEvent::Open)) {
+                sh.ev_notify.notify_waiters();
+            }
             match ev {
                 Some(DataChannelEvent::Open) => g[idx].events.push(ChEv::Open),
                 Some(DataChannelEvent::Message(b)) => g[idx].events.push(ChEv::Msg {
@@ -380,6 +393,7 @@ async fn run_scenario(scn: &Scenario, watchdog: Duration) -> Outcome {
         chans: Mutex::new(vec![]),
         senders_done: AtomicU64::new(0),
         main_done: AtomicU64::new(0),
+        ev_notify: tokio::sync::Notify::new(),
     });
     let mut aux: Vec<tokio::task::JoinHandle<()>> = vec![];
     // readers for locally created channel objects
@@ -467,7 +481,10 @@ async fn run_scenario(scn: &Scenario, watchdog: Duration) -> Outcome {
                 if is_open {
                     break true;
                 }
-                tokio::time::sleep(Duration::from_millis(2)).await;
+                tokio::select! {
+                    _ = sh2.ev_notify.notified() => {}
+                    _ = tokio::time::sleep(Duration::from_millis(2)) => {}
+                }
             };
             let _ = (&local, &keep);
             let mut failed = !opened;
@@ -528,6 +545,33 @@ async fn run_scenario(scn: &Scenario, watchdog: Duration) -> Outcome {
             }
             sh2.senders_done.fetch_add(1, Ordering::SeqCst);
         }));
+    }
+
+    // duplicate DCEP OPENs through the public API
+    if scn.dup_open > 0 {
+        for (side, ep) in [('a', &rig.a), ('b', &rig.b)] {
+            for dc in ep.channels.iter().filter(|d| !d.negotiated) {
+                let dc = dc.clone();
+                let sctp = ep.sctp.clone();
+                let sh2 = sh.clone();
+                let n = scn.dup_open;
+                let id = dc.id;
+                aux.push(tokio::spawn(async move {
+                    // wait until this creator-side object reported Open
+                    for _ in 0..5000 {
+                        let open = sh2.chans.lock().iter().any(|c| c.side == side && c.id == id && !c.inband_peer && c.events.iter().any(|e| matches!(e, ChEv::Open)));
+                        if open {
+                            break;
+                        }
+                        tokio::time::sleep(Duration::from_millis(2)).await;
+                    }
+                    for i in 0..n {
+                        let _ = sctp.send_dcep_open(&dc).await;
+                        tokio::time::sleep(Duration::from_millis(3 + 7 * i as u64)).await;
+                    }
+                }));
+            }
+        }
     }
 
     // ------------------------------------------------ supervision loop
@@ -1863,6 +1907,47 @@ fn gen_c12(args: &Args) -> Vec<Scenario> {
                 }
             }
         }
+        if i % 3 == 1 {
+            s.dup_open = 1 + (i as u32 % 3);
+        }
+        out.push(s);
+    }
+    // an ordered partially-reliable channel run over more than one lap of the 16-bit SSN space under
+    // heavy loss in both directions: abandonment (FORWARD-TSN stream/SSN pairs) and the receiver's
+    // reorder buffer meet the 65535 -> 0 wrap
+    for i in 0..args.tier.pick(2, 8) {
+        let mut s = default_scn("c12", &format!("ssnlap#{i}"));
+        let mut c = reliable_chan(2);
+        c.max_retransmits = Some(*rng.pick(&[0u16, 1]));
+        s.chans = vec![c];
+        s.plan = Plan {
+            rules: vec![],
+            random: Some(RandomPhase { loss_pm: *rng.pick(&[150u32, 300]), dup_pm: 20, delay_pm: 100, max_delay_ms: 30, packets: 1_000_000, include_setup: false }),
+            seed: rng.next_u64(),
+        };
+        s.max_buffered = 1024 * 1024;
+        s.tail = 0;
+        s.sends.push(SendSpec { side: 'a', ch: 2, sender: 0, n: 140_000, mode: "id".into(), seed: rng.next_u64(), gap_us: 0 });
+        out.push(s);
+    }
+    // the same with one chunk per datagram and the loss placed exactly at the wrap: the message with
+    // SSN 65534 (and, in variants, its neighbours) is lost while 65535 / 0 arrive
+    for (i, lost) in [vec![65534u16], vec![65533, 65534], vec![65534, 0], vec![65535], vec![65534, 1]].into_iter().enumerate() {
+        if args.tier == Tier::Quick && i >= 2 {
+            break;
+        }
+        let mut s = default_scn("c12", &format!("ssnwrap-loss#{i}"));
+        let mut c = reliable_chan(2);
+        c.max_retransmits = Some(0);
+        s.chans = vec![c];
+        s.plan = Plan {
+            rules: lost.iter().map(|n| Rule { dir: Dir::A2B, class: format!("SSN=2:{n}"), ordinal: 0, action: Action::Drop }).collect(),
+            random: None,
+            seed: 0,
+        };
+        s.max_buffered = 1024 * 1024;
+        s.tail = 0;
+        s.sends.push(SendSpec { side: 'a', ch: 2, sender: 0, n: 135_000, mode: "one".into(), seed: rng.next_u64(), gap_us: 0 });
         out.push(s);
     }
     // explicit duplicated setup chunks with negotiated channels (Open exactly once)
